@@ -16,6 +16,17 @@ pub mod util;
 
 pub const VERIF_ROOT: &str = "/verif";
 
+/// Debugging aid (never used by the registered commands): `VERIF_SIDE=<name>` redirects everything a
+/// run writes (evidence, violations, end-to-end lanes) to `/verif/.work/side-<name>/`, so that a run
+/// against another compiler binary (`PX_PAVEXC_BIN`) can go on next to the normal checks.
+pub fn side_dir() -> Option<std::path::PathBuf> {
+    std::env::var("VERIF_SIDE").ok().filter(|s| !s.is_empty()).map(|s| Path::new(VERIF_ROOT).join(".work").join(format!("side-{s}")))
+}
+
+fn evidence_dir() -> std::path::PathBuf {
+    side_dir().map(|d| d.join("evidence")).unwrap_or_else(|| Path::new(VERIF_ROOT).join("evidence"))
+}
+
 #[derive(Clone, Copy, Debug, PartialEq, Eq)]
 pub enum Tier {
     Quick,
@@ -209,7 +220,7 @@ impl Evidence {
             labels: BTreeMap::new(),
             samples: vec![],
             merge_base: if s.extra.contains_key("merge-evidence") {
-                std::fs::read_to_string(Path::new(VERIF_ROOT).join("evidence").join(format!("{}.json", s.prop))).ok().and_then(|t| serde_json::from_str(&t).ok())
+                std::fs::read_to_string(evidence_dir().join(format!("{}.json", s.prop))).ok().and_then(|t| serde_json::from_str(&t).ok())
             } else {
                 None
             },
@@ -238,7 +249,7 @@ impl Evidence {
         }
     }
     pub fn write(&self) {
-        let dir = Path::new(VERIF_ROOT).join("evidence");
+        let dir = evidence_dir();
         let _ = std::fs::create_dir_all(&dir);
         let mut cov = serde_json::Map::new();
         cov.insert("evaluations".into(), json!(self.evaluations));
@@ -492,8 +503,7 @@ impl Check {
     pub fn violation<V: Serialize>(&mut self, sub: &str, f: &Fail, value: &V) {
         self.ev.violations += 1;
         self.replay_counter += 1;
-        let dir = Path::new(VERIF_ROOT)
-            .join(".work")
+        let dir = side_dir().unwrap_or_else(|| Path::new(VERIF_ROOT).join(".work"))
             .join("violations")
             .join(&self.settings.prop);
         let _ = std::fs::create_dir_all(&dir);
